@@ -75,6 +75,16 @@ pub struct TcpSocketImpl {
 
 impl Socket for TcpSocketImpl {
     fn new(address: &SocketAddr, timeout_settings: &Option<TimeoutSettings>) -> GDResult<Self> {
+        #[cfg(gamedig_verif)]
+        if let Some(scripted) = crate::verif_hook::tcp_new(address, timeout_settings) {
+            let socket = Self {
+                socket: scripted?,
+                address: *address,
+            };
+            socket.apply_timeout(timeout_settings)?;
+            return Ok(socket);
+        }
+
         let socket = TimeoutSettings::get_connect_or_default(timeout_settings).map_or_else(
             || net::TcpStream::connect(address),
             |timeout| net::TcpStream::connect_timeout(address, timeout),
@@ -91,6 +101,9 @@ impl Socket for TcpSocketImpl {
     }
 
     fn apply_timeout(&self, timeout_settings: &Option<TimeoutSettings>) -> GDResult<()> {
+        #[cfg(gamedig_verif)]
+        crate::verif_hook::apply_timeout(timeout_settings);
+
         let (read, write) = TimeoutSettings::get_read_and_write_or_defaults(timeout_settings);
         self.socket.set_read_timeout(read).unwrap(); // unwrapping because TimeoutSettings::new
         self.socket.set_write_timeout(write).unwrap(); // checks if these are 0 and throws an error
@@ -99,11 +112,21 @@ impl Socket for TcpSocketImpl {
     }
 
     fn send(&mut self, data: &[u8]) -> GDResult<()> {
+        #[cfg(gamedig_verif)]
+        if let Some(scripted) = crate::verif_hook::send(&self.address, data) {
+            return scripted;
+        }
+
         self.socket.write(data).map_err(|e| PacketSend.context(e))?;
         Ok(())
     }
 
     fn receive(&mut self, size: Option<usize>) -> GDResult<Vec<u8>> {
+        #[cfg(gamedig_verif)]
+        if let Some(scripted) = crate::verif_hook::tcp_receive(size) {
+            return scripted;
+        }
+
         let mut buf = Vec::with_capacity(size.unwrap_or(DEFAULT_PACKET_SIZE));
         self.socket
             .read_to_end(&mut buf)
@@ -128,6 +151,9 @@ pub struct UdpSocketImpl {
 
 impl Socket for UdpSocketImpl {
     fn new(address: &SocketAddr, timeout_settings: &Option<TimeoutSettings>) -> GDResult<Self> {
+        #[cfg(gamedig_verif)]
+        crate::verif_hook::udp_new(address);
+
         let socket = net::UdpSocket::bind("0.0.0.0:0").map_err(|e| SocketBind.context(e))?;
 
         let socket = Self {
@@ -141,6 +167,9 @@ impl Socket for UdpSocketImpl {
     }
 
     fn apply_timeout(&self, timeout_settings: &Option<TimeoutSettings>) -> GDResult<()> {
+        #[cfg(gamedig_verif)]
+        crate::verif_hook::apply_timeout(timeout_settings);
+
         let (read, write) = TimeoutSettings::get_read_and_write_or_defaults(timeout_settings);
         self.socket.set_read_timeout(read).unwrap(); // unwrapping because TimeoutSettings::new
         self.socket.set_write_timeout(write).unwrap(); // checks if these are 0 and throws an error
@@ -149,6 +178,11 @@ impl Socket for UdpSocketImpl {
     }
 
     fn send(&mut self, data: &[u8]) -> GDResult<()> {
+        #[cfg(gamedig_verif)]
+        if let Some(scripted) = crate::verif_hook::send(&self.address, data) {
+            return scripted;
+        }
+
         self.socket
             .send_to(data, self.address)
             .map_err(|e| PacketSend.context(e))?;
@@ -157,6 +191,11 @@ impl Socket for UdpSocketImpl {
     }
 
     fn receive(&mut self, size: Option<usize>) -> GDResult<Vec<u8>> {
+        #[cfg(gamedig_verif)]
+        if let Some(scripted) = crate::verif_hook::udp_receive(size, DEFAULT_PACKET_SIZE) {
+            return scripted;
+        }
+
         let mut buf: Vec<u8> = vec![0; size.unwrap_or(DEFAULT_PACKET_SIZE)];
         let (number_of_bytes_received, _) = self
             .socket
